@@ -44,7 +44,7 @@ ASSUMPTIONS = [
     '.run default CLOSE ON: named SELECT queries in all shapes; named BALANCES/JOURNAL/PRINT only without FROM or with an explicit CLOSE (where both readings of the property agree)',
     '.tables/.describe/.explain output text and warnings text are never compared',
 ]
-PROBES = ['run_default_close_non_select', 'run_listing_after_missing_name', 'bookkeeping_command', 'several_lines_in_one_cmdloop', 'bare_non_legacy_word', 'named_query_text_typed_after_run', 'render_after_setting_change', 'numberify_on_render', 'csv_render', 'boxed_unicode_render', 'empty_text_result',
+PROBES = ['comment_only_line', 'cli_init_sets_format_or_numberify', 'cli_output_file_preexisting', 'run_default_close_non_select', 'run_listing_after_missing_name', 'bookkeeping_command', 'several_lines_in_one_cmdloop', 'bare_non_legacy_word', 'named_query_text_typed_after_run', 'render_after_setting_change', 'numberify_on_render', 'csv_render', 'boxed_unicode_render', 'empty_text_result',
           'run_default_close_applied', 'run_explicit_close_kept', 'invalid_set_rejected', 'either_or_value', 'writer_fault_prefix',
           'second_session_isolated', 'cmdloop_error_path', 'dot_keyword_not_executed', 'legacy_bare_command', 'print_statement',
           'cli_output_file', 'cli_quiet_with_errors', 'cli_stdin_query', 'cli_init_file', 'nullvalue_rendered', 'expand_render']
@@ -238,6 +238,8 @@ def generate(rng, tier, run):
             elif r < 0.96:
                 ops.append(rng.choice([{'op': 'unknown', 'text': '.foo'}, {'op': 'unknown', 'text': '.selectx 1'},
                                        {'op': 'unknown', 'text': '. foo'}, {'op': 'unknown', 'text': '.-x'},
+                                       {'op': 'comment_line', 'text': '; just a note'}, {'op': 'comment_line', 'text': '/* nothing to do */'},
+                                       {'op': 'comment_line', 'text': '  ; indented note'},
                                        {'op': 'bareword', 'text': 'tables'}, {'op': 'bareword', 'text': 'describe postings'},
                                        {'op': 'bareword', 'text': 'explain SELECT account'}, {'op': 'bareword', 'text': 'Tables'},
                                        {'op': 'dotkw', 'text': '.select a FROM #sentinel'},
@@ -261,16 +263,20 @@ def generate(rng, tier, run):
 def generate_cli(rng, tier, run):
     with_errors = rng.random() < 0.5
     ledger = world.gen_ledger(rng, n_txn=rng.randint(1, 5), with_errors=with_errors)
-    stmt = rng.choice(STMTS[:12])
+    stmt = rng.choice(STMTS[:18] + ['PRINT FROM year = 1999', 'PRINT FROM narration = "nothing like this"'])
     init = None
     if rng.random() < 0.25:
         init = [rng.choice(['.set boxed true', '.set spaced on', '.set nullvalue NA', '.set unicode yes', '.set expand 1',
-                            '.set narrow false'])]
+                            '.set narrow false', '.set format csv', '.set format text', '.set numberify true',
+                            '.set numberify false'])]
+        if rng.random() < 0.3:
+            init.insert(0, '; my preferences')
     return {
         'kind': 'cli',
         'world': {'ledger': ledger, 'with_errors': with_errors},
         'cli': {'stmt': recase(rng, stmt), 'format': rng.choice([None, 'text', 'csv']), 'numberify': rng.random() < 0.35,
-                'output': rng.random() < 0.45, 'quiet': rng.random() < 0.5, 'stdin': rng.random() < 0.3,
+                'output': rng.random() < 0.45, 'stale_output': rng.random() < 0.5, 'quiet': rng.random() < 0.5,
+                'stdin': rng.random() < 0.3,
                 'long_opts': rng.random() < 0.3, 'init': init},
         'clients': [],
     }
@@ -689,6 +695,14 @@ def execute(case, keep_log=False):
                         violation('run-missing-changed-registry', where, op, 'only the named queries of the ledger', listing[:10])
                     elif asked_missing[ci]:
                         S.probes['run_listing_after_missing_name'] += 1
+            elif k == 'comment_line':
+                # a line holding nothing but a comment is an empty line: nothing printed, nothing reported, nothing changed
+                got, err, so, exc, _ = feed(ci, op['text'])
+                log.add(where, k, op['text'], bool(got), has_error(err), core.exc_class(exc) if exc else None)
+                S.probes['comment_only_line'] += 1
+                if got or so or exc is not None or has_error(err):
+                    violation('comment-line-not-ignored', where, op, 'nothing printed, no error',
+                              [got[:100], so[:100], err[:200], core.exc_class(exc) if exc else None])
             elif k == 'bareword':
                 # only a fixed set of legacy commands is accepted without the dot; any other bare line is a
                 # statement for the query parser - here an invalid one: an error, no command output
@@ -778,8 +792,12 @@ def execute_cli(case, keep_log=False):
             with open(os.path.join(scratch, '.config', 'beanquery', 'init'), 'w') as f:
                 f.write('\n'.join(C['init']) + '\n')
             for line in C['init']:
+                if not line.startswith('.set'):
+                    continue            # a comment line
                 _, name, value = line.split(None, 2)
                 M[name] = classify_set(name, value)[1]
+                if name in ('format', 'numberify'):
+                    probes['cli_init_sets_format_or_numberify'] = 1
             probes['cli_init_file'] = 1
         args = [ledger_path]
         if C.get('format'):
@@ -791,6 +809,11 @@ def execute_cli(case, keep_log=False):
         if C.get('output'):
             args += (['--output', out_path] if C.get('long_opts') else ['-o', out_path])
             probes['cli_output_file'] = 1
+            if C.get('stale_output'):
+                # the report of an earlier run is still there: -o redirects the result of THIS run
+                with open(out_path, 'w') as f:
+                    f.write('STALE RESULT OF AN EARLIER RUN\n')
+                probes['cli_output_file_preexisting'] = 1
         if C.get('quiet'):
             args += ['--no-errors' if C.get('long_opts') else '-q']
         if C.get('stdin'):
@@ -822,7 +845,7 @@ def execute_cli(case, keep_log=False):
                 with open(out_path, newline='') as f:
                     result = f.read()
             except FileNotFoundError:
-                result = ''     # click opens -o lazily: an empty result leaves no file
+                result = None   # -o FILE: the file holds the result of this run, even an empty one
         log.add('cli', [a if not a.startswith(scratch) else os.path.basename(a) for a in args], so, result,
                 core.exc_class(exc) if exc else None, 'Transaction does not balance' in se)
         if res[0] == 'err':
@@ -876,6 +899,8 @@ def simplify(case):
     W = case['world']
     n = len(W['ledger']['dirs'])
     txn_idx = [i for i, d in enumerate(W['ledger']['dirs']) if d['k'] != 'query']
+    if W.get('with_errors') and txn_idx:
+        txn_idx = txn_idx[:-1]          # keep the transaction that makes the ledger report errors
     if len(txn_idx) > 1:
         for cut in (len(txn_idx) // 2, len(txn_idx) - 1):
             c = copy.deepcopy(case)
@@ -920,7 +945,7 @@ def _line(case, op):
         return ('.set ' if k == 'set' else 'set ') + op['name'] + ' ' + shlex.quote(op['value'])
     if k == 'run':
         return '.run ' + (case['world']['named'][op['q']]['name'] if op['q'] is not None else 'nosuchquery') + f' <{op["form"]}>'
-    if k in ('unknown', 'dotkw', 'bareword', 'misc'):
+    if k in ('unknown', 'dotkw', 'bareword', 'misc', 'comment_line'):
         return op['text']
     if k == 'script':
         return '<one cmdloop call> ' + ' | '.join(_line(case, sub) for sub in op['lines'])
